@@ -45,6 +45,10 @@ func main() {
 	subcommands.Register(&diffCmd{}, "")
 	subcommands.Register(&genCmd{}, "")
 	subcommands.Register(&showCmd{}, "")
+	// The options of gen are also accepted before the package patterns when
+	// no command is named (gen is the default command).
+	defaultGen := &genCmd{}
+	defaultGen.SetFlags(flag.CommandLine)
 	flag.Parse()
 
 	// Initialize the default logger to log to stderr.
@@ -67,8 +71,7 @@ func main() {
 	}
 	// Default to running the "gen" command.
 	if args := flag.Args(); len(args) == 0 || !allCmds[args[0]] {
-		genCmd := &genCmd{}
-		os.Exit(int(genCmd.Execute(context.Background(), flag.CommandLine)))
+		os.Exit(int(defaultGen.Execute(context.Background(), flag.CommandLine)))
 	}
 	os.Exit(int(subcommands.Execute(context.Background())))
 }
